@@ -36,7 +36,24 @@ func VerifModel_hmac_New(h func() hash.Hash, key []byte) hash.Hash {
 
 func VerifModel_hmac_Equal(a, b []byte) bool { return string(a) == string(b) }
 
-func VerifModel_sha256_New() hash.Hash { return nil }
+// sha256.New: a collision-free hash as an uninterpreted injective function of the bytes
+// written since the last Reset. Every operation is a scheduling point, so that two threads
+// sharing one hash state are interleaved by the scheduler (a fresh state per use is what
+// makes concurrent use safe - C12).
+type ShaState struct{ Data string }
+
+func (m *ShaState) Write(p []byte) (int, error) { Yield(); m.Data += string(p); return len(p), nil }
+func (m *ShaState) Sum(b []byte) []byte {
+	Yield()
+	out := UFStringInj("sha256", m.Data)
+	Assume(len(out) == 32)
+	return append(b, out...)
+}
+func (m *ShaState) Reset()         { Yield(); m.Data = "" }
+func (m *ShaState) Size() int      { return 32 }
+func (m *ShaState) BlockSize() int { return 64 }
+
+func VerifModel_sha256_New() hash.Hash { return &ShaState{} }
 
 // aead.GenerateKey: 32 random bytes -> an arbitrary byte string.
 func VerifModel_aead_GenerateKey() []byte {
